@@ -6,6 +6,7 @@
 package c09
 
 import (
+	"github.com/cloudwego/dynamicgo/vsync"
 	"bytes"
 	"context"
 	"fmt"
@@ -123,6 +124,20 @@ func (jc *jcase) toCase() core.Case {
 						core.Catch(func() { cv.Do(context.Background(), c.In, append([]byte{}, d.prime...)) })
 					}
 					pi := core.Catch(func() { out, cerr = cv.Do(context.Background(), c.In, in) })
+					if pi == nil {
+						vsync.Controlled = true
+						vsync.Reset()
+						var o4 []byte
+						var e4 error
+						pi4 := core.Catch(func() { o4, e4 = cv.Do(context.Background(), c.In, append([]byte{}, d.text...)) })
+						vsync.Reset()
+						vsync.Controlled = false
+						if pi4 != nil {
+							add("j2p.Do", "fresh-pooled-objects|panic@"+pi4.Site+":"+core.PanicClass(pi4.Val), "panic: %s\ndocument %s", pi4.Val, clip(d.text))
+						} else if (e4 == nil) != (cerr == nil) || (e4 == nil && !bytes.Equal(o4, out)) {
+							add("j2p.Do", "differs-with-fresh-pooled-objects", "with the pooled objects of this process: %x err=%v\nwith fresh ones: %x err=%v\ndocument %s", out, cerr, o4, e4, clip(d.text))
+						}
+					}
 					if pi == nil && cerr == nil && poolpoison.Aliased(out) {
 						add("j2p.Do", "result-aliases-pooled-buffer", "the %d bytes returned by Do change when the buffers in the converters' pool are overwritten\ndocument %s", len(out), clip(d.text))
 					}
